@@ -37,7 +37,7 @@ CHECKS = {
                   'of every object in all bounded histories, each fed back as a matcher to the real controller',
         text='number<->letters conversion is compared with the by-construction sequence for every index through four '
              'letters; every displayed label in every explored history/interleaving is used as `X: label` matcher and must '
-             'select exactly the reference set of lines.',
+             'select exactly the reference set of lines, also after a session in which single connections were watched.',
         ref='3/C14', engine='PROD'),
     'C08': dict(
         technique='deviation-bounded exhaustive enumeration (inserted chatter lines at every position, missing final '
@@ -47,7 +47,7 @@ CHECKS = {
     'C16': dict(
         technique='exhaustive product enumeration of logs over a microsecond gap lattice x visibility x time shift x '
                   'decimal mark x view, executed on the real pipeline, oracle in exact integer arithmetic',
-        text='All logs of 3/4 messages with gaps from {0,.4,.999999,1,1.000001,1.2,2.5}s, every shown/hidden pattern, '
+        text='All logs of 3/4 messages with gaps from {0,.4,.999999,1,1.000001,1.2,2.5}s (and, with stamped non-message lines first, a string quoting a stamped line, or plain, from {-.003,0,.999999,1.000001,2.5}s), every shown/hidden pattern, '
              '4/10 constant shifts, both decimal marks, live view and list, 1-2 connections: displayed times and the '
              'presence/value of every gap separator must equal the exact reference.',
         ref='3/C16', engine='PROD'),
@@ -82,7 +82,7 @@ CHECKS = {
         text='After every step of every explored history (log lines of every construct, every command form) the '
              'coloured output with escape sequences removed must equal the uncoloured output on both streams and in log '
              'records, and the uncoloured run emits no escape sequence of its own; every coloured fragment printed is fed '
-             'back coloured and stripped to twin sessions, which must behave identically.',
+             'back coloured and stripped to twin sessions, which must behave identically; the real command line, on a pipe and on a pseudo-terminal, with colour disabled and 10 well- and malformed -f/-b values, prints no escape sequence.',
         ref='3/C17', engine='BFS'),
     'C07': dict(
         technique='exhaustive enumeration of every shipped interface x message x argument position (API and output '
@@ -124,7 +124,7 @@ CHECKS = {
         technique='explicit-state BFS over plugin event histories (messages, wl commands, continue) on the real plugin '
                   'and controller in a GDB API model, merged on the reference pause machine; exhaustive enumeration of '
                   'command lists for the terminal prompt loop',
-        text='Plugin event histories (messages incl. orphan objects on two connections, 18 wl commands via `wl` / `wl<cmd>`, continue) from 2 initial breakpoints, merged on the reference pause machine and unmerged: stop() returns True iff the reference breakpoint (C12 accumulation, hand denotations) and selection hold, with exactly one Stopped-at notice; GDB is told quit / continue / nothing as the reference says; selection and breakpoint shown by the tool equal the reference after every command. The prompt loop of file/run mode asks exactly until resume or quit. Thorough: command schedules are played in the real GDB.',
+        text='Plugin event histories (messages incl. orphan objects on three connections, connection destructions, 19 wl commands via `wl` / `wl<cmd>` incl. a connection-qualified breakpoint, continue) from 2 initial breakpoints, merged on the reference pause machine and unmerged: stop() returns True iff the reference breakpoint (C12 accumulation, hand denotations) and selection hold, with exactly one Stopped-at notice; GDB is told quit / continue / nothing as the reference says; selection and breakpoint shown by the tool equal the reference after every command. The prompt loop of file/run mode asks exactly until resume or quit. Thorough: command schedules are played in the real GDB.',
         ref='3/C10', engine='BFS'),
     'C15': dict(
         technique='explicit-state BFS over libwayland events (messages on 2 addresses from 2 threads, destructions of '
@@ -133,8 +133,8 @@ CHECKS = {
         text='Every event history to depth 5/7 merged on a reference registry and to depth 3/4 unmerged: messages on 2 addresses from 2 threads (first message get_registry sent / received / none, late get_registry, orphan objects), destructions of known / closed / never-seen connections, reconnects at a new address; connections open and close as the reference says with fresh object tables, nothing escapes the breakpoint handlers (disabled breakpoints do not fire, as in GDB), which never halt the program. Thorough: depth-4 histories replayed in the real GDB.',
         ref='3/C15', engine='BFS'),
     'C13': dict(
-        technique='stateless exploration of all 2-thread schedules of the real run_program with bounded preemptions '
-                  '(settrace baton scheduler, model pipe, scripted child) + deviation-bounded enumeration of short reads + '
+        technique='stateless exploration of all schedules (main, helper thread, child when started with Popen) of the real run_program with bounded preemptions '
+                  '(settrace baton scheduler, model pipe with per-holder write ends, model time, scripted child that may close its stderr and linger) + deviation-bounded enumeration of short reads + '
                   'the real command line in three modes under several hash seeds',
         text="Every 2-thread schedule of the real run_program with <=2/<=3 preemptions (a scheduling point at every line of runner.py and every pipe operation): no deadlock or assertion, the file-mode twin's output, the child's status, the prompt after all output; every placement of <=2/<=3 cuts at every byte offset leaves the output unchanged; the real CLI gives identical stdout/stderr in file, pipe and run mode across hash seeds, with writes split inside a character, marker-like program arguments, any parent WAYLAND_DEBUG, and returns the child's exit status (all 256 in the thorough tier).",
         ref='3/C13', engine='ILV+DEV'),
